@@ -74,18 +74,18 @@ func modules(t *sg.TypeSpec, hops int) []*sg.Mod {
 		m1.Typedefs = append(m1.Typedefs, &sg.Typedef{Name: name, Type: inner})
 		m1.Nodes[0].Kids[0].Type = &sg.TypeSpec{Name: name, Patterns: own}
 	}
-	if hops > 0 && t.Name == "string" {
-		// a sibling compiled later refines the same typedef with a pattern of its own: that is its business alone
-		last := fmt.Sprintf("td%d", hops-1)
-		m1.Nodes[0].Kids = append(m1.Nodes[0].Kids, &sg.Node{Kind: "leaf", Name: "w1", Type: &sg.TypeSpec{Name: last, Patterns: []string{"zz+"}}},
-			&sg.Node{Kind: "leaf-list", Name: "w2", Type: &sg.TypeSpec{Name: last}})
-	}
 	if t.Name != "empty" {
 		// the same type on a leaf-list: an entry is validated, and its rejection located, like the value of the leaf
 		m1.Nodes[0].Kids = append(m1.Nodes[0].Kids, &sg.Node{Kind: "leaf-list", Name: "vl", Type: m1.Nodes[0].Kids[0].Type})
 		// ... and as the key of a list: the token after the list name is a value of the key's type wherever the path goes on to
 		m1.Nodes[0].Kids = append(m1.Nodes[0].Kids, &sg.Node{Kind: "list", Name: "kl", Key: "k", Kids: []*sg.Node{
 			{Kind: "leaf", Name: "k", Type: m1.Nodes[0].Kids[0].Type}, {Kind: "leaf", Name: "other", Type: &sg.TypeSpec{Name: "string"}}}})
+	}
+	if hops > 0 && t.Name == "string" {
+		// a sibling compiled later refines the same typedef with a pattern of its own: that is its business alone
+		last := fmt.Sprintf("td%d", hops-1)
+		m1.Nodes[0].Kids = append(m1.Nodes[0].Kids, &sg.Node{Kind: "leaf", Name: "w1", Type: &sg.TypeSpec{Name: last, Patterns: []string{"zz+"}}},
+			&sg.Node{Kind: "leaf-list", Name: "w2", Type: &sg.TypeSpec{Name: last}})
 	}
 	return []*sg.Mod{m0, m1}
 }
